@@ -1205,7 +1205,13 @@ class PSBTIn:
                     raise ValueError("too many pubkeys in p2wpkh or p2sh-p2wpkh")
                 elif len(self.named_pubs) == 1:
                     named_pub = list(self.named_pubs.values())[0]
-                    if script_pubkey.commands[1] != named_pub.hash160():
+                    # the key hash is in the ScriptPubKey for p2wpkh and in the
+                    # RedeemScript for p2sh-p2wpkh
+                    if script_pubkey.is_p2wpkh():
+                        h160 = script_pubkey.commands[1]
+                    else:
+                        h160 = self.redeem_script.commands[1]
+                    if h160 != named_pub.hash160():
                         raise ValueError(
                             "pubkey {} does not match the hash160".format(
                                 named_pub.sec().hex()
@@ -1756,12 +1762,25 @@ class PSBTOut:
                 raise ValueError(
                     "RedeemScript hash160 and ScriptPubKey hash160 do not match"
                 )
-            for sec in self.named_pubs.keys():
-                try:
-                    # this will raise a ValueError if it's not in there
-                    self.redeem_script.commands.index(sec)
-                except ValueError:
-                    raise ValueError(f"pubkey is not in RedeemScript {self}")
+            if self.redeem_script.is_p2wpkh():
+                # p2sh-p2wpkh: the RedeemScript holds the hash160 of the one key
+                if len(self.named_pubs) > 1:
+                    raise ValueError("too many pubkeys in p2sh-p2wpkh")
+                elif len(self.named_pubs) == 1:
+                    named_pub = list(self.named_pubs.values())[0]
+                    if self.redeem_script.commands[1] != named_pub.hash160():
+                        raise ValueError(
+                            "pubkey {} does not match the hash160".format(
+                                named_pub.sec().hex()
+                            )
+                        )
+            else:
+                for sec in self.named_pubs.keys():
+                    try:
+                        # this will raise a ValueError if it's not in there
+                        self.redeem_script.commands.index(sec)
+                    except ValueError:
+                        raise ValueError(f"pubkey is not in RedeemScript {self}")
 
     def __repr__(self):
         return f"""
